@@ -257,7 +257,8 @@ func makeScenario(rng *rand.Rand, idx int, thorough bool) *scenario {
 			// names a reader must take literally on this platform: backslash, glob and shell characters,
 			// spaces, upper case, trailing dot, deep directories (gopar's PAR2 writer refuses non-ASCII names)
 			odd := []string{"report\\final%02d.txt", "with space %02d.dat", "-dash%02d.dat", "a[%02d].dat", "x*y?%02d.dat",
-				"dot.%02d.", "UPPER%02d.DAT", "sub/deep/er/f%02d.bin", "%%41-%02d.txt", "semi;colon&%02d", "back\\sub\\f%02d", "a'b\"c%02d"}
+				"dot.%02d.", "UPPER%02d.DAT", "sub/deep/er/f%02d.bin", "%%41-%02d.txt", "semi;colon&%02d", "back\\sub\\f%02d", "a'b\"c%02d",
+				"docs/.hidden%02d", "src/.config/f%02d.ini", "sub/..f%02d"} // dot-named components BELOW the top level are ordinary names
 			name = fmt.Sprintf(odd[rng.Intn(len(odd))], i)
 		}
 		if (i+idx)%7 == 3 {
@@ -327,6 +328,41 @@ func makeScenario(rng *rand.Rand, idx int, thorough bool) *scenario {
 	sc.volLoss = []string{"none", "some", "some", "all", "some"}[rng.Intn(5)]
 	sc.dc = rng.Intn(3) == 0
 	sc.desc = fmt.Sprintf("files=%d S=%d R=%d g=%d", nf, sc.s, sc.r, sc.g)
+	return sc
+}
+
+// zeroTailScenario: files whose last (partial or full) slice ends in a run of zero bytes lose SOME of those zeros.
+// Every slice is then still found in place (the last one with its zero padding at end of file), so the slice counts
+// are clean although the file is too short - and a Repair that reports success must have lengthened it again.
+func zeroTailScenario(rng *rand.Rand, idx int) *scenario {
+	s := []int{64, 1024}[(idx/3)%2]
+	sc := &scenario{prot: map[string][]byte{}, s: s, r: 3, g: 1 + idx%3, volLoss: "none", dc: idx%2 == 0}
+	for i, n := range []int{3*s + s/2, 2 * s, 5*s + 7} {
+		name := fmt.Sprintf("z%02d.bin", i)
+		d := make([]byte, n)
+		rng.Read(d)
+		z := 1 + rng.Intn(s/3) // trailing zeros, all inside the last slice
+		for k := n - z - 4; k < n; k++ {
+			d[k] = 0
+		}
+		d[n-z-5] = 0x11
+		sc.names = append(sc.names, name)
+		sc.prot[name] = d
+	}
+	sc.desc = fmt.Sprintf("zero tails S=%d", s)
+	sc.damage = func(rng *rand.Rand, sc *scenario, disk map[string][]byte) []string {
+		var out []string
+		for i, n := range sc.names {
+			if i == 2 && idx == 30 {
+				continue // one file stays intact
+			}
+			d := disk[n]
+			cut := 1 + rng.Intn(4) // at most the 4 guaranteed zeros plus z >= 1
+			disk[n] = append([]byte{}, d[:len(d)-cut]...)
+			out = append(out, fmt.Sprintf("strip %d trailing zeros of %s", cut, n))
+		}
+		return out
+	}
 	return sc
 }
 
@@ -530,6 +566,8 @@ func runP2Big(args []string) error {
 			}
 		} else if idx == 24 {
 			sc = longNameScenario(rng)
+		} else if idx == 27 || idx == 30 {
+			sc = zeroTailScenario(rng, idx)
 		} else {
 			sc = makeScenario(rng, idx, thorough)
 		}
